@@ -548,3 +548,235 @@ def ob_h(ob):
             ob.verdict(v, lab)
     x = z3.Real("x")
     expect_refuted(ob, x == -x, [], "twin: a dropped minus sign is noticed", "lra")
+
+
+# ------------------------------------------------------------------------------------------------------------------------
+# c: the hand-coded derivative kernel of the two-centre integrals (der_TETCILF, ~900 lines) vs the exact derivative of the
+#    integrals the energy path computes (two_elec_two_center_int_local_frame + w_withquaternion)
+# ------------------------------------------------------------------------------------------------------------------------
+_TET_NAMES = ["da", "db", "qa", "qb", "r0a", "r0b", "r1a", "r1b", "r2a", "r2b"]
+_TET_DIRS = {"generic": ("2/7", "3/7", "6/7"), "z": ("0", "0", "1"), "xz": ("3/5", "0", "-4/5")}
+
+
+def _tet_pair(kind):
+    return (torch.tensor([1 if kind == "HH" else 8]), torch.tensor([1 if kind != "XX" else 6]))
+
+
+def _tet_symbolic(kind, direction):
+    """symbolic run of the real derivative kernel and dual-number run of the real integral + rotation code for one pair with
+    bond direction `direction` (rational unit vector), distance r and all multipole parameters symbolic.
+    returns (got[c][k], want[c][k], assumptions) as z3 terms; k runs over the elements of the w block of this pair class"""
+    from fractions import Fraction
+    from seqm.seqm_functions.two_elec_two_center_int_local_frame import two_elec_two_center_int_local_frame as TETCILF
+    from seqm.seqm_functions.two_elec_two_center_int import w_withquaternion
+    from seqm.seqm_functions.anal_grad import der_TETCILF
+    from seqm.seqm_functions.constants import Constants, a0, ev
+
+    ni, nj = _tet_pair(kind)
+    tore = Constants().tore
+    S.reset()
+    S.ST.sqrt_mode = "canon"
+    r, EVs, A0 = z3.Reals("r EV A0")
+    # the unit constants enter as symbols: the code forms ev/a0/a0 in floating point, which is not exactly ev/a0^2
+    for k_, t_ in ((ev, EVs), (ev / 2.0, EVs / 2), (ev / 4.0, EVs / 4), (ev / 8.0, EVs / 8), (ev / 16.0, EVs / 16), (a0, A0), (ev / a0 / a0, EVs / (A0 * A0)), (ev / a0, EVs / A0)):
+        S.FLOAT_ALIAS[k_] = t_
+    try:
+        v = [Fraction(x) for x in _TET_DIRS[direction]]
+        P = {n: z3.Real(n) for n in _TET_NAMES}
+        assm = [r > 0, EVs > 0, A0 > 0] + [P[n] > 0 for n in _TET_NAMES]
+        par = lambda n: SymTensor(np.array([P[n]], dtype=object))
+        pars = [par(n) for n in _TET_NAMES]
+        r0 = SymTensor(np.array([r], dtype=object))
+        xij = SymTensor(np.array([[S.rv(x) for x in v]], dtype=object))
+        Xt = SymTensor(np.array([[r * A0 * S.rv(x) for x in v]], dtype=object))
+        with symbolic_factories():
+            wHH, riXH, ri, _, _, _ = TETCILF(ni, nj, r0, tore, *pars, "AM1")
+            wx = torch.zeros(1, 3, 10, 10, dtype=torch.float64)
+            der_TETCILF(wx, ni, nj, xij, Xt, r0, *pars, riXH, ri)
+        S.ST.dual_n = 3
+        try:
+            r0d = SymTensor(np.array([Dual(r, tuple(S.rv(v[k]) / A0 for k in range(3)))], dtype=object))
+            xijd = SymTensor(np.array([[Dual(S.rv(v[c]), tuple(S.rv((1 if k == c else 0) - v[c] * v[k]) / (r * A0) for k in range(3))) for c in range(3)]], dtype=object))
+            with symbolic_factories():
+                wHHd, riXHd, rid, _, _, _ = TETCILF(ni, nj, r0d, tore, *pars, "AM1")
+                _, _, wXH, w = w_withquaternion(None, tore, ni, nj, xijd, riXHd, rid, wHHd)
+        finally:
+            S.ST.dual_n = 0
+    finally:
+        S.FLOAT_ALIAS.clear()
+    W = {"HH": wHHd, "XH": wXH, "XX": w}[kind].a.reshape(-1)
+    n = W.size
+    got = [[None] * n for _ in range(3)]
+    want = [[None] * n for _ in range(3)]
+    for k in range(n):
+        for c in range(3):
+            want[c][k] = W[k].t[c] if isinstance(W[k], Dual) else z3.RealVal(0)
+            got[c][k] = wx.a[0, c, 0, 0] if kind == "HH" else (wx.a[0, c, k, 0] if kind == "XH" else wx.a[0, c, k // 10, k % 10])
+    return got, want, assm, (r, EVs, A0, P)
+
+
+def _tet_chunk(args):
+    """worker: decide the elements k in `ks` of one pair class / direction; returns [(k, c, status, detail)]"""
+    kind, direction, ks = args
+    from engine import radical
+    import traceback
+
+    try:
+        return _tet_chunk_inner(kind, direction, ks, radical)
+    except BaseException as ex:  # noqa: results must stay picklable
+        return [(-1, -1, "error", "%s: %s\n%s" % (type(ex).__name__, ex, traceback.format_exc()[-1500:]))], {}, 0.0
+
+
+def _tet_chunk_inner(kind, direction, ks, radical):
+    import signal
+    from fractions import Fraction
+
+    got, want, assm, syms = _tet_symbolic(kind, direction)
+    r, EVs, A0, P = syms
+    side = list(S.ST.side)
+    # a numeric probe point (floats that are exact dyadic-ish rationals so that the solver can be given the same point)
+    pt = {"r": 1.75, "EV": 27.25, "A0": 0.53125}
+    pt.update({n: 0.5 + 0.0625 * (i + 1) for i, n in enumerate(_TET_NAMES)})
+    fe = S.FEval(pt)
+    fix = [z3.Real(k) == z3.RealVal(Fraction(v)) for k, v in pt.items()]
+
+    class _Budget(Exception):
+        pass
+
+    def _alarm(*a):
+        raise _Budget()
+
+    signal.signal(signal.SIGALRM, _alarm)
+    out = []
+    for k in ks:
+        for c in range(3):
+            lab = "c:%s %s w[%d] d/dX_%d" % (kind, direction, k, c)
+            # (1) cheap probe: if the identity already fails numerically at the probe point, let the solver confirm that
+            #     point and skip the (then very large) normal form
+            g, w_ = fe(got[c][k]), fe(want[c][k])
+            if abs(g + w_) > 1e-9 * (abs(g) + abs(w_)) + 1e-9:  # values are O(0.01..10) eV/A; 1e-9 absolute guards exact zeros
+                v, m = smt.check(assm + side + fix + [got[c][k] + want[c][k] != 0], lab + " at the probe point", "nra", 30)
+                out.append((k, c, "sat", {"probe": pt, "kernel": g, "exact derivative": -w_, "solver at the probe point": v}))
+                return out, dict(smt.STATS.n), smt.STATS.solver_s
+            # (2) normal form multilinear in the square roots; the solver decides the coefficient polynomials
+            signal.alarm(90)
+            try:
+                # sign convention: the kernel returns d w / d X_i (X_ij = X_j - X_i), the dual run differentiates w.r.t. X_ij
+                coefs, bundle = radical.coefficients(got[c][k] + want[c][k])
+                dev = radical.validate(bundle, ntries=1, seed=k * 3 + c)
+                if dev > 1e-12:
+                    out.append((k, c, "translator", "normal form deviates from the expanded numerator by %.2e" % dev))
+                    continue
+                status, detail = "ok", len(coefs)
+                for clab, cz in coefs:
+                    v, m = smt.prove(cz == 0, assm, lab + " coefficient of %s" % clab, "nra", 30)
+                    if v == "sat":
+                        status, detail = "sat", {str(d): str(m[d]) for d in m.decls()}
+                        break
+                    if v != "unsat":
+                        status, detail = "unknown", clab
+                        break
+            except _Budget:
+                status, detail = "unknown", "normal form not finished in 90 s"
+            finally:
+                signal.alarm(0)
+            out.append((k, c, status, detail))
+            if status == "sat":
+                return out, dict(smt.STATS.n), smt.STATS.solver_s
+    return out, dict(smt.STATS.n), smt.STATS.solver_s
+
+
+def replay_w_derivative(kind, direction, r=2.3):
+    """float64, real code: der_TETCILF vs central finite differences of the w block computed by the integral + rotation code"""
+    from fractions import Fraction
+    from seqm.seqm_functions.two_elec_two_center_int_local_frame import two_elec_two_center_int_local_frame as TETCILF
+    from seqm.seqm_functions.two_elec_two_center_int import w_withquaternion
+    from seqm.seqm_functions.anal_grad import der_TETCILF
+    from seqm.seqm_functions.constants import Constants, a0
+
+    ni, nj = _tet_pair(kind)
+    tore = Constants().tore
+    v = torch.tensor([float(Fraction(x)) for x in _TET_DIRS[direction]], dtype=torch.float64)
+    pars = [torch.tensor([x], dtype=torch.float64) for x in (0.75, 0.66, 0.6, 0.5, 0.8, 0.875, 0.71, 0.6, 0.67, 0.625)]
+
+    def wblock(X):
+        dist = X.norm()
+        r0 = (dist / a0).reshape(1)
+        xij = (X / dist).reshape(1, 3)
+        wHH, riXH, ri, _, _, _ = TETCILF(ni, nj, r0, tore, *pars, "AM1")
+        _, _, wXH, w = w_withquaternion(None, tore, ni, nj, xij, riXH, ri, wHH)
+        return {"HH": wHH, "XH": wXH, "XX": w}[kind].reshape(-1), r0, xij, riXH, ri
+
+    X0 = v * r * a0
+    w0, r0, xij, riXH, ri = wblock(X0)
+    wx = torch.zeros(1, 3, 10, 10, dtype=torch.float64)
+    der_TETCILF(wx, ni, nj, xij, X0.reshape(1, 3), r0, *pars, riXH, ri)
+    h = 1e-6
+    worst = 0.0
+    for c in range(3):
+        e = torch.zeros(3, dtype=torch.float64)
+        e[c] = h
+        fd = (wblock(X0 + e)[0] - wblock(X0 - e)[0]) / (2 * h)
+        got = wx[0, c, 0, 0].reshape(1) if kind == "HH" else (wx[0, c, :, 0] if kind == "XH" else wx[0, c].reshape(-1))
+        worst = max(worst, (got + fd).abs().max().item())
+    print("replay der_TETCILF (%s pair, direction %s, r = %.2f bohr): max |kernel + finite-difference d w/d X_ij| = %.3e" % (kind, direction, r, worst))
+    return worst > 1e-6
+
+
+@obligation(PID, "c", title="the hand-coded derivative kernel of the two-centre two-electron integrals (der_TETCILF: local-frame derivatives and rotation derivative) equals the exact derivative of the integral block that the energy path computes, element by element, for every distance and every value of the multipole parameters (H-H, heavy-H and heavy-heavy pairs)")
+def ob_c(ob):
+    import multiprocessing as mp
+    from seqm.seqm_functions import anal_grad as AG
+    from seqm.seqm_functions.two_elec_two_center_int_local_frame import two_elec_two_center_int_local_frame as TETCILF
+    from seqm.seqm_functions.two_elec_two_center_int import w_withquaternion
+
+    ob.encodes(AG.der_TETCILF, TETCILF, w_withquaternion)
+    thorough = ob.tier == "thorough"
+    dirs = ["generic", "z", "xz"] if thorough else ["generic"]
+    ob.bound("one pair per class (H-H: 1 element, O-H: 10, O-C: 100 elements of the w block) x 3 Cartesian directions; bond direction a rational unit vector (%s); distance r > 0, the ten multipole parameters (dipole/quadrupole separations, additive terms) and the unit constants ev, a0 symbolic; quick tier: every 4th element of the heavy-heavy block, thorough: all elements and three bond directions" % ", ".join("%s=%s" % (d, _TET_DIRS[d]) for d in dirs))
+    ob.assume("oracle = forward-mode dual numbers through the real integral and rotation code (no finite differences)", "identities contain up to 35 independent square roots, on which nlsat does not terminate (probed: unknown at 60 s already with all parameters concrete): each identity is first brought to a normal form multilinear in the roots by sympy (common denominator, s^2 -> radicand; engine/radical.py, validated numerically per element), and the coefficient polynomials of that normal form are what the SMT solver decides; for the unchanged code every coefficient is identically zero after normalisation, so the solver's part is non-trivial only when the kernel is wrong (it then yields the counterexample point)")
+    jobs = []
+    for d in dirs:
+        jobs.append(("HH", d, [0]))
+        jobs.append(("XH", d, list(range(10))))
+        ks = list(range(100)) if thorough else list(range(0, 100, 4))
+        nchunk = 12
+        for i in range(nchunk):
+            part = ks[i::nchunk]
+            if part:
+                jobs.append(("XX", d, part))
+    results = [None] * len(jobs)
+    with mp.get_context("fork").Pool(min(14, len(jobs))) as pool:
+        pending = [pool.apply_async(_tet_chunk, (j,)) for j in jobs]
+        import time as _time
+
+        while any(r is None for r in results):
+            for i, p in enumerate(pending):
+                if results[i] is None and p.ready():
+                    results[i] = p.get()
+            if any(r is not None and any(x[2] == "sat" for x in r[0]) for r in results):
+                pool.terminate()  # one counterexample is enough: the remaining (then very slow) elements are not needed
+                break
+            _time.sleep(0.5)
+    results = [r if r is not None else ([], {}, 0.0) for r in results]
+    for (kind, d, ks), (res, qn, qs) in zip(jobs, results):
+        for k_, n_ in qn.items():
+            smt.STATS.n[k_] = smt.STATS.n.get(k_, 0) + n_
+        smt.STATS.solver_s += qs
+        for k, c, status, detail in res:
+            lab = "c:%s pair, direction %s, w[%d] d/dX_%d" % (kind, d, k, c)
+            if status == "ok":
+                ob.discharged(lab)
+            elif status == "unknown":
+                ob.inconclusive(lab + " (coefficient %s)" % detail)
+            elif status == "error":
+                raise HarnessError("worker failed for %s pair, direction %s: %s" % (kind, d, detail))
+            elif status == "translator":
+                raise HarnessError("radical normal form failed its validation for %s: %s" % (lab, detail))
+            else:
+                if replay_w_derivative(kind, d):
+                    ob.violation("der_TETCILF is not the derivative of the two-centre integral block for a %s pair (element %d, Cartesian direction %d, bond direction %s): analytical forces are not the gradient of the energy" % (kind, k, c, d), {"module": "harness.C01", "func": "replay_w_derivative", "args": {"kind": kind, "direction": d}})
+                    return
+                raise HarnessError("derivative-kernel counterexample did not reproduce (%s): %s" % (lab, detail))
+    x, y = z3.Reals("x y")
+    expect_refuted(ob, x * y == 0, [x > 0, y > 0], "twin: a non-zero coefficient polynomial is refuted", "nra")
